@@ -19,11 +19,13 @@ HARNESS = "outputs"      # C12 runs the same machinery in its own crate (harness
 
 RULE = ("return types from the grammar Option/Result/Vec/Poll/tuples(1-5) x {C, N(not Clone), &C, &N, &str, &[C], &'static C, "
         "&'static str, &'static [C], ()} to depth 3: all leaf and depth-1 types, plus random deeper ones (biased to the shapes the "
-        "macro accepts, plus free and mutated ones that probe the acceptance boundary). Per type the model predicts acceptance, "
+        "macro accepts, plus free and mutated ones that probe the acceptance boundary); accepted types that borrow from self also with the "
+        "receiver's lifetime written out (`fn f<'s>(&'s self) -> Option<&'s C>`). Per type the model predicts acceptance, "
         "OutputKind, input type of returns() and availability of the multi-use path; acceptance is checked with rustc (batch crate / one "
         "rustc per rejected type), the OutputKind against std::any::type_name of the generated MockFn. Per accepted type: values "
         "covering every variant at every choice point and Vec lengths 0..4 (+ random ones) with distinct leaf ids, each configured via "
-        "some_call.returns (3 requests), next_call.returns (1), each_call.returns (3) and some_call.returns.n_times(3) (3) and printed "
+        "some_call.returns (3 requests), next_call.returns (1), each_call.returns (3), some_call.returns.n_times(3) (3), some_call.returns.at_least_times(1) (3), "
+        "each_call.returns.at_least_times(1) (3), next_call.returns.n_times(2) (2) and some_call.returns.n_times(1) (1) and printed "
         "structurally (references marked, their addresses compared across requests). distinct = (type, value); non-trivial = the kind is "
         "not a plain Owning/Lending/StaticRef leaf (a Shallow or Deep conversion ran) ")
 
@@ -32,17 +34,33 @@ LEAF_RUST = {"C": "C", "N": "N", "Str": "str", "Sl": "[C]"}
 
 
 # ---------------------------------------------------------------- types
-def rust_ty(t):
+def rust_ty(t, named=False):
+    """named: borrows of self are spelled with the receiver's NAMED lifetime (`fn f<'s>(&'s self) -> .. &'s T ..`) instead of
+    the elided one; for the macro's analysis both are the same borrow of self (output.rs analyze_lifetime), model: LtElided"""
     k = t[0]
     if k == "own": return t[1]
-    if k == "ref": return ("&" if t[1] == "e" else "&'static ") + LEAF_RUST[t[2]]
-    if k == "opt": return f"Option<{rust_ty(t[1])}>"
-    if k == "vec": return f"Vec<{rust_ty(t[1])}>"
-    if k == "poll": return f"Poll<{rust_ty(t[1])}>"
-    if k == "res": return f"Result<{rust_ty(t[1])}, {rust_ty(t[2])}>"
+    if k == "ref": return (("&'s " if named else "&") if t[1] == "e" else "&'static ") + LEAF_RUST[t[2]]
+    if k == "opt": return f"Option<{rust_ty(t[1], named)}>"
+    if k == "vec": return f"Vec<{rust_ty(t[1], named)}>"
+    if k == "poll": return f"Poll<{rust_ty(t[1], named)}>"
+    if k == "res": return f"Result<{rust_ty(t[1], named)}, {rust_ty(t[2], named)}>"
     if k == "tup":
-        return "(" + ", ".join(rust_ty(x) for x in t[1]) + ("," if len(t[1]) == 1 else "") + ")"
+        return "(" + ", ".join(rust_ty(x, named) for x in t[1]) + ("," if len(t[1]) == 1 else "") + ")"
     raise ValueError(t)
+
+
+def sig_of(rust):
+    return f"fn f<'s>(&'s self) -> {rust}" if "&'s " in rust else f"fn f(&self) -> {rust}"
+
+
+def named_variants(infos, limit):
+    """for accepted types that borrow from self: the same type with the receiver's lifetime written out"""
+    out = []
+    for i in infos:
+        r = rust_ty(i["ty"], named=True)
+        if i["accept"] and r != i["rust"] and len(out) < limit:
+            out.append(dict(i, rust=r, named=True))
+    return out
 
 
 def coq_ty(t):
@@ -403,12 +421,16 @@ def write_gen_rs(infos):
     for k, inf in enumerate(infos):
         blk = lambda tag, n, chain: (f"    {{ let v: In = Build::build(&mut Toks {{ t: toks, pos: 0 }}); "
                                      f"let u = Unimock::new(M{k}::f.{chain}); crate::request!(out, \"{tag}\", {n}, u, T{k}); }}")
-        body = [f"#[unimock(api = M{k})]", f"pub trait T{k} {{ fn f(&self) -> {inf['rust']}; }}",
+        body = [f"#[unimock(api = M{k})]", f"pub trait T{k} {{ {sig_of(inf['rust'])}; }}",
                 f"pub fn run{k}(toks: &[String], out: &mut Vec<String>) {{", f"    type In = {inf['in']};",
                 f"    if toks.first().map(|s| s.as_str()) == Some(\"KIND\") {{ out.push(format!(\"K {{}}\", std::any::type_name::<<M{k}::f as MockFn>::OutputKind>())); return; }}",
                 blk("S", 3, "some_call(matching!()).returns(v)"), blk("O", 1, "next_call(matching!()).returns(v)")]
         if inf["multi"]:
-            body += [blk("M", 3, "each_call(matching!()).returns(v)"), blk("T", 3, "some_call(matching!()).returns(v).n_times(3)")]
+            body += [blk("M", 3, "each_call(matching!()).returns(v)"), blk("T", 3, "some_call(matching!()).returns(v).n_times(3)"),
+                     blk("A", 3, "some_call(matching!()).returns(v).at_least_times(1)"),
+                     blk("Q", 3, "each_call(matching!()).returns(v).at_least_times(1)"),
+                     blk("U", 2, "next_call(matching!()).returns(v).n_times(2)"),
+                     blk("E", 1, "some_call(matching!()).returns(v).n_times(1)")]
         body.append("}")
         parts += body
         arms.append(f"        {k} => run{k}(toks, out),")
@@ -450,7 +472,7 @@ def probe_programs(progs):
 
 
 def probe_src(rust, in_ty, chain="some_call(matching!()).returns(v)"):
-    return (HDR + f"#[unimock(api = M)]\npub trait T {{ fn f(&self) -> {rust}; }}\n"
+    return (HDR + f"#[unimock(api = M)]\npub trait T {{ {sig_of(rust)}; }}\n"
             f"pub fn p(v: {in_ty}) {{ let _ = Unimock::new(M::f.{chain}); }}\n")
 
 
@@ -474,10 +496,12 @@ def build_accepted(infos):
             multi = [i for i in acc if i["multi"]]
             bad = {}
             for inf, (ok, e) in zip(acc, res[:len(acc)]):
-                if not ok: bad[inf["rust"]] = {"type": inf["rust"], "model": "accepted", "rustc": "rejected: " + e}
+                if not ok: bad[inf["rust"]] = {"type": inf["rust"], "model": "accepted", "rustc": "rejected: " + e,
+                                               "program": probe_src(inf["rust"], inf["in"])}
             for inf, (ok, e) in zip(multi, res[len(acc):]):
                 if not ok and inf["rust"] not in bad:
-                    bad[inf["rust"]] = {"type": inf["rust"], "model": "multi-use path type-checks", "rustc": "rejected: " + e}
+                    bad[inf["rust"]] = {"type": inf["rust"], "model": "multi-use path type-checks", "rustc": "rejected: " + e,
+                                        "program": probe_src(inf["rust"], inf["in"], "each_call(matching!()).returns(v)")}
             if not bad:
                 raise
             mism += list(bad.values())
@@ -503,6 +527,7 @@ def run(tier, seed):
     obligations = C.proof_obligations("C17", MODULE, THEOREMS)
     types = gen_types(rng, tier)
     infos = analyse_types(types)
+    infos += named_variants(infos, 40 if tier == "quick" else 400)
     binary, acc, mism = build_accepted(infos)
     # acceptance boundary: what the model rejects must not compile; no multi-use path => each_call().returns must not compile
     rej = [i for i in infos if not i["accept"]]
@@ -588,7 +613,8 @@ def run(tier, seed):
                    "expected_by_model": strip_obs(cm[0]), "observed_on_implementation": strip_obs(ci[0]),
                    "disagreeing_cases_in_run": len(bad),
                    "reading": "S<i>: i-th request after some_call().returns(v); O1: next_call().returns(v); M<i>: each_call().returns(v); "
-                              "T<i>: some_call().returns(v).n_times(3); `P once` = panic 'cannot return value more than once'",
+                              "T<i>: some_call().returns(v).n_times(3); A<i>: some_call().returns(v).at_least_times(1); Q<i>: each_call().returns(v).at_least_times(1); "
+                              "U<i>: next_call().returns(v).n_times(2); E1: some_call().returns(v).n_times(1); `P once` = panic 'cannot return value more than once'",
                    "replay_cmd": "./check C17 --replay <this file>"}
         path = C.write_replay("C17", seed, payload)
         C.write_evidence("C17", tier, seed, cov, time.time() - t0, 1)
@@ -602,6 +628,19 @@ def run(tier, seed):
         path = C.write_replay("C17", seed, payload)
         C.write_evidence("C17", tier, seed, cov, time.time() - t0, 1)
         C.violation("C17", path, no_input=True)
+        return 1
+    should_compile = [m for m in mism if "program" in m]
+    if should_compile:
+        # a program of the property's grammar (a return type the model accepts, returns(v) with the input type the model derives)
+        # that the real macro / crate no longer compiles: that program is the failing input
+        m0 = min(should_compile, key=lambda m: len(m["type"]))
+        payload = {"property": "C17", "seed": seed, "part": "acceptance",
+                   "theorem_or_correspondence": "correspondence C17/acceptance: a return type the model accepts (C17_accepted_has_kind) with returns(v) of the derived input type must compile",
+                   "rust_return_type": m0["type"], "model": m0["model"], "rustc": m0["rustc"], "program": m0["program"],
+                   "mismatches_in_run": len(mism), "replay_cmd": "./check C17 --replay <this file>"}
+        path = C.write_replay("C17", seed, payload)
+        C.write_evidence("C17", tier, seed, cov, time.time() - t0, 1)
+        C.violation("C17", path)
         return 1
     if mism:
         payload = {"property": "C17", "seed": seed,
@@ -622,6 +661,12 @@ def run(tier, seed):
 
 def replay(path):
     payload = json.load(open(path))
+    if payload.get("part") == "acceptance":
+        (ok, e), = probe_programs([payload["program"]])
+        print(payload["program"]); print("rustc:", "accepts" if ok else "rejects: " + e)
+        if not ok:
+            C.violation("C17", path); return 1
+        print("compiles, as the model says"); return 0
     if "value" not in payload:
         print("replay file names an obligation, not an input:", payload.get("theorem_or_correspondence"))
         print(json.dumps({k: v for k, v in payload.items() if k not in ("property", "seed")}, indent=1)[:2000])
